@@ -20,13 +20,13 @@ open LlgoVerif.SysV
     `8k`, and every field lies inside the bytes its register carries.  Both for parameters and results.
     (Induction over the flattened field list with the running-offset invariant: `splitLoop_spec`.) -/
 theorem amd64_classify_sound (t : CType) (h : t.view.natural) (isRet : Bool) :
-    Sound (classify t isRet) t.view :=
+    Sound (classifyLegacy t isRet) t.view :=
   classifyV_sound t.view h isRet
 
 /-- every flat struct — any list of scalar fields — satisfies the hypothesis, so for flat structs the
     statement is unconditional -/
 theorem amd64_classify_sound_flat (fs : List Scalar) (isRet : Bool) :
-    Sound (classify (.struct (fs.map .sc)) isRet) (CType.struct (fs.map .sc)).view :=
+    Sound (classifyLegacy (.struct (fs.map .sc)) isRet) (CType.struct (fs.map .sc)).view :=
   amd64_classify_sound _ (natural_flat fs) isRet
 
 example : (CType.struct [.sc .f32, .array 3 (.sc .i16), .struct [.sc .i16], .sc .f32]).view.natural := by decide
@@ -34,18 +34,18 @@ example : ¬ (CType.struct [.sc .i8, .struct [.sc .i8, .sc .i32]]).view.natural 
 
 /-- objects of more than 16 bytes with ≥ 2 leaves go to memory (byval / sret) on both sides, whatever their nesting -/
 theorem amd64_large_memory (t : CType) (h16 : 16 < t.size) (hn : 2 ≤ t.flatten.length) (isRet : Bool) :
-    classify t isRet = .memory ∧ classifyAgg t.size t.elems = .memory := by
+    classifyLegacy t isRet = .memory ∧ classifyAgg t.size t.elems = .memory := by
   constructor
-  · unfold classify classifyV
+  · unfold classifyLegacy classifyLegacyV
     have h0 : t.view.size ≠ 0 := by show t.size ≠ 0; omega
     rw [if_neg h0]
-    unfold getTypeInfo
+    unfold getTypeInfoLegacy
     rw [if_pos (show t.view.types.length ≥ 2 from hn), if_pos (show t.view.size > 16 from h16)]
   · unfold classifyAgg
     rw [if_neg (by omega), if_pos h16]
 
 /-- the statement for ALL value types of the universe — false on the current tree -/
-def Amd64ClassifySoundFull : Prop := ∀ t : CType, Sound (classify t false) t.view
+def Amd64ClassifySoundFull : Prop := ∀ t : CType, Sound (classifyLegacy t false) t.view
 
 /-- `struct { int8 a,b,c,d,e; struct { int8 x; int32 y; } i; }` (16 bytes; `i.x` at 8, `i.y` at 12): the split
     loop runs on the flattened list with a running offset that ignores the padding before the nested struct,
@@ -57,20 +57,20 @@ theorem amd64_classify_counterexample : ¬ Amd64ClassifySoundFull := by
 /-- `struct { int8 x; struct { int8 a; int32 b; } i; }`: the second half is the integer type of width 0,
     which LLVM cannot generate code for (llgo crashes while compiling any function with such a parameter) -/
 theorem amd64_classify_illformed :
-    (classify (.struct [.sc .i8, .struct [.sc .i8, .sc .i32]]) false).wellFormed = false := by decide
+    (classifyLegacy (.struct [.sc .i8, .struct [.sc .i8, .sc .i32]]) false).wellFormed = false := by decide
 
 /-- **The proposed repair (fixes/C09-1.diff) changes no classification of a naturally laid out shape**, so it
     inherits `amd64_classify_sound` there; on the other shapes it is judged by the decidable `Sound` checker on
     every generated input (design/C09.md). -/
 theorem amd64_repair_conservative (t : CType) (h : t.view.natural) (isRet : Bool) :
-    classifyFixedV t.view isRet = classify t isRet ∧ Sound (classifyFixedV t.view isRet) t.view := by
+    classifyV t.view isRet = classifyLegacy t isRet ∧ Sound (classifyV t.view isRet) t.view := by
   have e := classifyFixedV_eq_natural t.view h isRet
   exact ⟨e, e ▸ amd64_classify_sound t h isRet⟩
 
 /-- … and it classifies the two witnesses of the nested-padding defect soundly -/
-example : Sound (classifyFixedV (CType.struct [.sc .i8, .sc .i8, .sc .i8, .sc .i8, .sc .i8, .struct [.sc .i8, .sc .i32]]).view false)
+example : Sound (classifyV (CType.struct [.sc .i8, .sc .i8, .sc .i8, .sc .i8, .sc .i8, .struct [.sc .i8, .sc .i32]]).view false)
     (CType.struct [.sc .i8, .sc .i8, .sc .i8, .sc .i8, .sc .i8, .struct [.sc .i8, .sc .i32]]).view := by decide
-example : Sound (classifyFixedV (CType.struct [.sc .i8, .struct [.sc .i8, .sc .i32]]).view false)
+example : Sound (classifyV (CType.struct [.sc .i8, .struct [.sc .i8, .sc .i32]]).view false)
     (CType.struct [.sc .i8, .struct [.sc .i8, .sc .i32]]).view := by decide
 
 /-! ## Placement of a whole parameter list -/
